@@ -7,7 +7,7 @@
     processes, for every page size 2^l (l <= 32) and every list of GPU sizes. *)
 From Coq Require Import List NArith Bool Lia.
 Import ListNotations.
-From VDrv Require Import Alloc AllocProofs Buddy.
+From VDrv Require Import Alloc AllocProofs Buddy BuddyProofs.
 Open Scope N_scope.
 
 (** a history is admissible when migration preparation (not a public API: it
@@ -158,15 +158,63 @@ Proof.
 Qed.
 Print Assumptions alloc_then_free_ok.
 
-(** * The buddy allocator *)
+(** Conservation: every page of every device is, at any time, exactly one of
+    free (on the device's free list), live (mapped in the page table), or
+    dropped by a migration preparation (the previous copy of a migrated page,
+    which the driver never gives back: it is the source of the migration copy).
+    In histories without migration preparation nothing is ever dropped:
+    free + live = all pages of the device.  (Before the repair of Remap every
+    Remap/Distribute lost the previous pages of the range.) *)
+Theorem pages_conserved : forall l gpus ops i d q, l <= 32 -> admissible l gpus ops ->
+  let s := run (init l gpus) ops in
+  crashed s = false ->
+  nth_error (devs s) i = Some d -> (psz s | q) -> d_base d <= q < d_base d + d_size d ->
+  (is_free (psz s) d q \/ In q (pas (pt s)) \/ In q (g_leaked s)) /\
+  (is_free (psz s) d q -> ~ In q (pas (pt s)) /\ ~ In q (g_leaked s)) /\
+  (In q (pas (pt s)) -> ~ In q (g_leaked s)) /\
+  (forallb (fun o => negb (is_mig o)) ops = true -> g_leaked s = []).
+Proof.
+  intros l gpus ops i d q Hl Hadm s Hnc Hn Hq Hr.
+  destruct (run_good ops (init l gpus) (or_intror (proj1 (init_Inv l gpus Hl))) Hadm) as [Hc|HI];
+    [fold s in Hc; congruence|]. fold s in HI.
+  destruct (Inv_conservation s i d q HI Hn Hq Hr) as (C1 & C2 & C3). splits; auto.
+  intros Hm. subst s. rewrite run_leak; auto.
+  destruct (init_ok l gpus Hl) as (_ & _ & _ & _ & _ & _ & _ & H8). exact H8.
+Qed.
+Print Assumptions pages_conserved.
 
-(** no history on a device of 2^k pages hands out a page that is still live
-    (PLACEHOLDER section: the general theorem is added below once proved) *)
+(** * The buddy allocator (after the repair of allocateMultiplePages) *)
+
+(** No history of allocations (of any number of pages) and frees (of arbitrary
+    page lists, including pages never handed out and double frees) on a device
+    of 2^k pages hands out a page that is still live. *)
+Theorem buddy_no_overlap : forall base k ops, k < 64 ->
+  double_handout (binit base (2 ^ k * 4096)) [] ops = false.
+Proof. exact buddy_no_overlap_all. Qed.
+Print Assumptions buddy_no_overlap.
+
+(** In every state such a history reaches, the blocks on the free lists and
+    the allocated blocks tile the device: every page lies in one of them, and
+    two of them are never nested. *)
+Theorem buddy_blocks_tile : forall base k ops b live outs, k < 64 ->
+  brun (binit base (2 ^ k * 4096)) [] ops = Some (b, live, outs) ->
+  (forall x, x < 2 ^ k -> exists l, l <= k /\
+     let j := x / 2 ^ (k - l) in
+     (In (addr b k l j) (get_level b l) \/ exists id, In (addr b k l j, l, id) (b_blocks b))) /\
+  (forall l j l' j', l < l' -> l' <= k -> j' < 2 ^ l' -> j = j' / 2 ^ (l' - l) ->
+     (In (addr b k l j) (get_level b l) \/ exists id, In (addr b k l j, l, id) (b_blocks b)) ->
+     (In (addr b k l' j') (get_level b l') \/ exists id, In (addr b k l' j', l', id) (b_blocks b)) -> False).
+Proof.
+  intros base k ops b live outs Hk H. apply buddy_tiles.
+  apply (brun_Binv k Hk ops _ [] (b, live, outs) (binit_Binv base k Hk) H).
+Qed.
+Print Assumptions buddy_blocks_tile.
+
+(** the histories that made the unrepaired allocator hand out a live page are
+    safe now (regressions; the same inputs are in corpus/C10) *)
 Definition buddy_witness : list bop :=
   [BAlloc 1; BAlloc 1; BAlloc 1; BFree [4294979584]; BAlloc 1].
 
-(** the history that made the unrepaired allocator hand out the first page
-    twice is safe now: the fourth allocation gets the page just freed *)
 Example buddy_former_witness_safe :
   double_handout (binit 4294971392 (4 * 4096)) [] buddy_witness = false /\
   option_map (fun r => snd r) (brun (binit 4294971392 (4 * 4096)) [] buddy_witness) =
